@@ -24,6 +24,21 @@ CLAIMS = {
    design_ref="7.4",
    note=BASE_NOTE + "Assumed: A-bufw (one BufferedWriter.write call is atomic across threads), the kernel delivers bytes reliably and in order; struct pack/unpack as modelled. The proxied transport is C16.",
    technique="Coq proofs (codec round-trip for all chunkings; interleaving invariant) + facts on write shapes + differential/scheduler correspondence"),
+ "C01": dict(
+   text="Theorems (Coq, unbounded, by induction over the recursive value grammar with a nested induction principle): for EVERY well-formed value (None, bool, int of any size and sign, float/complex as 64-bit patterns, bytes, strings of Unicode scalar values, list, tuple, dict with insertion order, set, frozenset; any depth and width) dumps succeeds and loads returns exactly that value with nothing left over, also via dumps_internal/loads_internal with channel objects; and any value with an unsupported leaf or a lone surrogate at ANY position is rejected with DumpError. The opcode stack machine, UTF-8, decimal text and big-endian fields are modelled byte by byte. Tie: facts (lower bound of the 4-byte branch, version, cut-over, serialise-before-send) and a differential run of the extracted model against execnet.dumps/loads/dump/load and real Channel.send->frame->receive on generated values (bytes and values compared).",
+   design_ref="7.1",
+   note=BASE_NOTE + "Modelled not verified: struct pack/unpack of doubles is the identity on bit patterns (A-ieee), CPython's UTF-8 codec and int<->decimal text equal Utf8.v/Decimal.v, dict/set iteration order is taken as given. Outside the model and listed as open findings: int digit limit (3.11+), recursion limit of the recursive saver, name-colliding subclasses.",
+   technique="Coq proof: loader stack machine run on the saver's output pushes the value (structural induction), plus extracted-model differential correspondence"),
+ "C12": dict(
+   text="Theorems/obligations (Coq): the opcode table, the opcode->loader registrations, the save_<type>->opcode uses, version byte, cut-over, float formats and coercion defaults REGENERATED from the current source equal the literal dump-format-v2 tables written down in CodecSpec.v (by reflexivity: a shifted opcode letter breaks the obligation); hand-written golden byte vectors for every type; the legacy Python-2 opcodes (PY2STRING, UNICODE, LONG, LONGLONG) and PY3STRING load as documented for all strings/ints under all four coercion settings; any foreign version byte gives DataFormatError; round trip in this format (C01). Tie: byte-for-byte comparison of execnet.dumps with the extracted reference encoder, legacy streams from an independent encoder under the 4 settings vs documented table vs model, all 255 foreign version bytes, coercion defaults and Channel.reconfigure reaching the peer; thorough adds CPython 3.10/3.11/3.13.",
+   design_ref="7.2",
+   note=BASE_NOTE + "The reference for 'format version 2' is CodecSpec.v as written from the format description; interoperability with real old execnet releases / Python 2 interpreters is represented by the independent legacy encoder, not by running them.",
+   technique="Coq: regenerated tables = literal spec tables (reflexivity), golden vectors (vm_compute), legacy-opcode lemmas; byte-exact differential"),
+ "C13": dict(
+   text="Theorems (Coq, for EVERY byte string, coercion setting and allocation bound): loads is total (the fuel |bytes|+1 never decides the result); its result is a value built only from supported builtin types (no channel object, no foreign object) or LoadError/EOFError (or the separately tracked memory demand) and nothing else; a successful load is unaffected by appended bytes; no strict prefix of a valid dump loads. Tie: facts (exact-length read helper with EOFError/LoadError, catch-all conversion to LoadError in Unserializer.load) and a differential run of the extracted machine against execnet.loads on all prefixes, single-byte substitutions/deletions/insertions of valid dumps, opcode soups with adversarial length fields under the 4 settings and random bytes (result class and value compared; per-call hang detection).",
+   design_ref="7.3",
+   note=BASE_NOTE + "Python == / hash for dict keys and set members of hostile streams is modelled in Value.v (numeric tower, NaN, +-0, tuples, frozensets). NEWLIST lengths above 2^20 are not executed on the implementation (open finding named in the property text).",
+   technique="Coq proofs over the opcode stack machine (fuel irrelevance, error typing, extension lemma => prefix theorem) + extracted-model differential on hostile inputs"),
 }
 
 REASON_TODO = "not claimed yet: model and theorems for this property are not built yet in this development (see DESIGN.md section 12 build order)"
